@@ -564,6 +564,151 @@ fn run_tweener(c: &Case) -> Result<(bool, bool, bool), Failure> {
 	Ok((retargeted, short_tween, nonlinear))
 }
 
+
+// --------------------------------------------------------------------------------------------
+// part B: a tween on a volume of a live signal path, through the manager
+
+#[derive(Debug, Clone, Copy, PartialEq)]
+enum BTarget {
+	Main,
+	Track,
+	Sound,
+	Effect,
+}
+
+#[derive(Debug, Clone)]
+struct BCase {
+	target: BTarget,
+	rate: u32,
+	buf: usize,
+	from_db: f32,
+	to_db: f32,
+	dur_frames: usize,
+	delay_frames: usize,
+	easing: Easing,
+	pre: Vec<usize>,
+	partition: Vec<usize>,
+}
+
+fn decode_b(src: &mut Src) -> BCase {
+	let db = |src: &mut Src| -(src.below(161) as f32) * 0.25;
+	BCase {
+		target: src.pick(&[BTarget::Main, BTarget::Track, BTarget::Sound, BTarget::Effect]),
+		rate: src.pick(&[8192u32, 48000, 44100, 22050]),
+		buf: src.pick(&[16usize, 1, 7, 128, 64]),
+		from_db: db(src),
+		to_db: db(src),
+		dur_frames: src.pick(&[300usize, 0, 1, 5, 40, 1000, 2500]) + src.below(7) as usize,
+		delay_frames: if src.chance(1, 3) { src.pick(&[1usize, 10, 100, 333]) } else { 0 },
+		easing: gen_easing(src),
+		pre: (0..src.usize_in(0, 2)).map(|_| src.pick(&[64usize, 1, 10])).collect(),
+		partition: (0..src.usize_in(1, 4)).map(|_| src.pick(&[64usize, 1, 7, 100, 23, 256])).collect(),
+	}
+}
+
+fn run_manager(c: &BCase) -> Result<(bool, bool, bool), Failure> {
+	use crate::models::param::db_to_amp;
+	use crate::probes::default_manager;
+	use kira::effect::volume_control::VolumeControlBuilder;
+	use kira::sound::static_sound::{StaticSoundData, StaticSoundSettings};
+	use kira::track::TrackBuilder;
+	use kira::Frame;
+	let mut mgr = default_manager(c.rate, c.buf);
+	let init = |t: BTarget| Decibels(if t == c.target { c.from_db } else { 0.0 });
+	if c.target == BTarget::Main {
+		mgr.main_track().set_volume(init(BTarget::Main), Tween { duration: Duration::ZERO, ..Default::default() });
+	}
+	let mut tb = TrackBuilder::new().volume(init(BTarget::Track));
+	let mut effect = tb.add_effect(VolumeControlBuilder::new(init(BTarget::Effect)));
+	let mut track = mgr.add_sub_track(tb).map_err(|_| Failure::simple("setup", "track"))?;
+	let mut sound = track
+		.play(StaticSoundData {
+			sample_rate: c.rate,
+			frames: (0..64).map(|_| Frame::from_mono(1.0)).collect::<Vec<_>>().into(),
+			settings: StaticSoundSettings::new().loop_region(..).volume(init(BTarget::Sound)),
+			slice: None,
+		})
+		.map_err(|_| Failure::simple("setup", "play"))?;
+	// settle (the sound's first frames pass through its resampler)
+	mgr.backend_mut().callback(32, 2);
+	let a_from = db_to_amp(c.from_db as f64);
+	let a_to = db_to_amp(c.to_db as f64);
+	let tol = |x: f64| 3e-5 * x.max(1e-3);
+	for n in &c.pre {
+		let cb = mgr.backend_mut().callback(*n, 2);
+		for i in 0..*n {
+			let (l, _) = cb.frame(i, 2);
+			ensure!((l as f64 - a_from).abs() <= tol(a_from), "holds-start-value-before-the-tween", "before any command the output is {l}, the start volume {} dB is {a_from}; case {c:?}", c.from_db);
+		}
+	}
+	let dt = 1.0 / c.rate as f64;
+	let tween = Tween {
+		start_time: if c.delay_frames > 0 { StartTime::Delayed(Duration::from_secs_f64(c.delay_frames as f64 * dt)) } else { StartTime::Immediate },
+		duration: Duration::from_secs_f64(c.dur_frames as f64 * dt),
+		easing: c.easing,
+	};
+	let delay = match tween.start_time {
+		StartTime::Delayed(d) => d.as_secs_f64(),
+		_ => 0.0,
+	};
+	let dur = tween.duration.as_secs_f64();
+	match c.target {
+		BTarget::Main => mgr.main_track().set_volume(Decibels(c.to_db), tween),
+		BTarget::Track => track.set_volume(Decibels(c.to_db), tween),
+		BTarget::Sound => sound.set_volume(Decibels(c.to_db), tween),
+		BTarget::Effect => effect.set_volume(Decibels(c.to_db), tween),
+	}
+	let curve = |t: f64| -> f64 {
+		// decibel value t seconds after the tween's start
+		if t <= 0.0 {
+			c.from_db as f64
+		} else if t >= dur {
+			c.to_db as f64
+		} else {
+			c.from_db as f64 + (c.to_db as f64 - c.from_db as f64) * ease_ref(c.easing, t / dur)
+		}
+	};
+	let total = c.delay_frames + c.dur_frames + 2 * c.buf + 64;
+	let mut done = 0usize; // frames since the start of the callback that picked the command up
+	let mut k = 0;
+	let mut short = false;
+	while done < total {
+		let n = c.partition[k % c.partition.len()];
+		k += 1;
+		let cb = mgr.backend_mut().callback(n, 2);
+		if let Some(p) = &cb.guard.panic {
+			return Err(Failure::panic("", p));
+		}
+		let mut i = 0;
+		while i < n {
+			let len = c.buf.min(n - i);
+			short |= dur > 0.0 && dur < len as f64 * dt;
+			for j in 0..len {
+				let (l, r) = cb.frame(i + j, 2);
+				let (lo, hi) = (a_from.min(a_to), a_from.max(a_to));
+				ensure!(l == r && l as f64 >= lo - tol(lo) && l as f64 <= hi + tol(hi), "never-outside-start-and-target", "frame {} after the command: output ({l}, {r}) is outside [{lo}, {hi}] (tween {} dB -> {} dB); case {c:?}", done + i + j, c.from_db, c.to_db);
+			}
+			// at the end of each internal buffer the value is on the curve, for the audio time that has
+			// passed since the command was picked up (delayed starts may lag by one buffer)
+			let t_end = (done + i + len) as f64 * dt;
+			let (l, _) = cb.frame(i + len - 1, 2);
+			let lag = if c.delay_frames > 0 { c.buf as f64 * dt } else { 0.0 };
+			// (the duration is rounded to nanoseconds: grant that much on the time axis)
+			let (d1, d2) = (curve(t_end - delay + 2.0 * TIME_SLACK), curve(t_end - delay - lag - 2.0 * TIME_SLACK));
+			let (a1, a2) = (db_to_amp(d1), db_to_amp(d2));
+			let (lo, hi) = (a1.min(a2), a1.max(a2));
+			let slack = tol(hi);
+			if !((l as f64) >= lo - slack && (l as f64) <= hi + slack) {
+				let sig = if t_end - delay - lag >= dur + 2.0 * TIME_SLACK { "ends-exactly-on-target-after-the-duration" } else { "follows-the-curve-in-audio-time" };
+				return Err(Failure::new(sig, sig, format!("{:.9} s of audio after the command was picked up (frame {}), tween {} dB -> {} dB over {dur} s delayed {delay} s: output {l}, the curve gives [{lo}, {hi}]; case {c:?}", t_end, done + i + len, c.from_db, c.to_db)));
+			}
+			i += len;
+		}
+		done += n;
+	}
+	Ok((false, short, c.easing != Easing::Linear))
+}
+
 fn decode(src: &mut Src, tier: Tier) -> Case {
 	let ty = src.pick(&[Ty::F64, Ty::Decibels, Ty::F32, Ty::Panning, Ty::Rate, Ty::Mix, Ty::Speed, Ty::Duration, Ty::Vec3, Ty::Quat, Ty::Tweener]);
 	let dims = match ty {
@@ -655,7 +800,7 @@ impl Property for C06 {
 		"C06"
 	}
 	fn rule(&self) -> &'static str {
-		"each case drives one public kira::Parameter<T> (T in f64, f32, Decibels, Panning, PlaybackRate, Mix, ClockSpeed with all unit pairs, Duration, Vec3, Quat) or the tweener modulator through a generated history of set(target, tween) and update(dt) calls: durations 0 / shorter than an update / long, all seven easings with positive powers, starts immediate / delayed / on a mock clock, overlapping set() calls mid-tween, update steps of buffer size, fractions of it, and multiples. After every update the value is checked against start + (target-start)*ease(elapsed/duration) evaluated with an independent easing implementation over the timing window the property grants (exact for immediate starts; one update for delayed and clock starts): held exactly before the start, inside the hull during, exactly the target once the whole window is past the end, never outside [start, target], previous_value/interpolated_value continuous. Non-trivial = a retarget mid-tween, a tween shorter than one update, or a non-linear easing; distinct = distinct decoded choices."
+		"each case drives one public kira::Parameter<T> (T in f64, f32, Decibels, Panning, PlaybackRate, Mix, ClockSpeed with all unit pairs, Duration, Vec3, Quat) or the tweener modulator through a generated history of set(target, tween) and update(dt) calls: durations 0 / shorter than an update / long, all seven easings with positive powers, starts immediate / delayed / on a mock clock, overlapping set() calls mid-tween, update steps of buffer size, fractions of it, and multiples. After every update the value is checked against start + (target-start)*ease(elapsed/duration) evaluated with an independent easing implementation over the timing window the property grants (exact for immediate starts; one update for delayed and clock starts): held exactly before the start, inside the hull during, exactly the target once the whole window is past the end, never outside [start, target], previous_value/interpolated_value continuous. One case in six instead tweens a live volume (main track, sub-track, sound or volume-control effect) of a DC signal path through the real manager at 8192..48000 Hz with internal buffers 1..128 and callback sizes that are not multiples of the buffer: the output holds the start value before the command, stays inside [start, target], is on the curve at the end of every internal buffer for the audio time elapsed since the command was picked up (one buffer of lag granted to delayed starts) and is exactly the target once the duration has passed. Non-trivial = a retarget mid-tween, a tween shorter than one update, a non-linear easing, or (manager cases) a callback size that is not a multiple of the buffer; distinct = distinct decoded choices."
 	}
 	fn assumptions(&self) -> Vec<String> {
 		vec![
@@ -674,6 +819,22 @@ impl Property for C06 {
 
 	fn run(&self, tape: &[u32], ctx: &mut Ctx) -> CaseResult {
 		let mut src = Src::new(tape);
+		if src.below(6) == 5 {
+			let case = decode_b(&mut src);
+			ctx.describe(|| format!("{case:?}"));
+			let (_, short, nonlinear) = run_manager(&case)?;
+			let mut classes = vec!["through-the-manager"];
+			if short {
+				classes.push("tween-shorter-than-update");
+			}
+			if nonlinear {
+				classes.push("non-linear-easing");
+			}
+			if case.partition.iter().any(|n| n % case.buf != 0) {
+				classes.push("callback-not-a-multiple-of-the-buffer");
+			}
+			return Ok(CaseInfo::new(&src, short || nonlinear || case.partition.iter().any(|n| n % case.buf != 0), classes));
+		}
 		let case = decode(&mut src, ctx.tier);
 		ctx.describe(|| format!("{case:?}"));
 		// sanity of the reference easing against the crate's own curve is part of C19; here the
